@@ -291,6 +291,8 @@ DEFECT_EXHIBITS = [
     ("Lifecycle_x_latepool.cfg", "AllClosedAfterClose", "a pool created by a refresh after policyConnPool.Close is never closed"),
     ("Lifecycle_x_selfwait.cfg", "deadlock", "reconnect run inline on the refresh flusher waits for the flusher itself"),
     ("Lifecycle_x_reconnwin.cfg", "AllClosedAfterClose", "a control connection installed by reconnect after controlConn.close is never closed"),
+    ("Lifecycle_x_statelock.cfg", "deadlock", "Close keeping sessionStateMu deadlocks with a heartbeat reconnect whose setupConn reads it"),
+    ("Lifecycle_x_quitnonblock.cfg", "temporal", "a non-blocking quit signal is lost when the heartbeat goroutine is busy: it never exits"),
     ("Lifecycle_x_evstoplock.cfg", "deadlock", "eventDebouncer.stop holding e.mu over the quit hand-off deadlocks with a flusher woken by its timer"),
     ("Lifecycle_x_evsynccb.cfg", "temporal", "an event handler run by the flusher under e.mu makes Session.Close wait for the handler"),
     ("Lifecycle_x_dropbc.cfg", "deadlock", "a flusher that drops the pending broadcaster on stop leaves its listeners waiting"),
